@@ -1726,6 +1726,13 @@ func tightRulesA(P *Program, r *Result, rule string, fns []*ssa.Function, A *Ana
 		_ = n
 		if spanStyle {
 			neededChecks(P, r, rule, fa, fn, base, avail, cntIdx)
+		} else {
+			for _, p := range fn.Params {
+				if isByteSlice(p.Type()) {
+					sliceNeededCnt(P, r, rule, fa, fn, p, cntIdx)
+					break
+				}
+			}
 		}
 	}
 }
@@ -1787,26 +1794,7 @@ func ptrReadExtent(fn *ssa.Function) int64 {
 // reporting at least that much). A test that asks for more than is ever
 // consumed rejects well-formed input that happens to end early.
 func neededChecks(P *Program, r *Result, rule string, fa *FA, fn *ssa.Function, base, avail *Lin, cntIdx int) {
-	A := fa.A
-	availID, isAtom := singleAtom(avail)
-	if !isAtom {
-		return
-	}
 	res := fn.Signature.Results()
-	isErrRet := func(b *ssa.BasicBlock) bool {
-		for hops := 0; hops < 3; hops++ {
-			last := b.Instrs[len(b.Instrs)-1]
-			if ret, ok := last.(*ssa.Return); ok {
-				return isKnownError(ret.Results[res.Len()-1])
-			}
-			if _, ok := last.(*ssa.Jump); ok && len(b.Instrs) == 1 {
-				b = b.Succs[0]
-				continue
-			}
-			return false
-		}
-		return false
-	}
 	// justified: the instruction reads at/after the required end, or counts it
 	justifies := func(in ssa.Instruction, need *Lin) bool {
 		blk := in.Block()
@@ -1853,6 +1841,35 @@ func neededChecks(P *Program, r *Result, rule string, fa *FA, fn *ssa.Function, 
 		}
 		return false
 	}
+	neededWalk(P, r, rule, fa, fn, base, avail, justifies)
+}
+
+// neededWalk is the search shared by the pointer-span and the slice form.
+func neededWalk(P *Program, r *Result, rule string, fa *FA, fn *ssa.Function, base, avail *Lin, justifies func(in ssa.Instruction, need *Lin) bool) int {
+	A := fa.A
+	availID, isAtom := singleAtom(avail)
+	if !isAtom {
+		return 0
+	}
+	res := fn.Signature.Results()
+	if res.Len() == 0 || !isErrorType(res.At(res.Len()-1).Type()) {
+		return 0
+	}
+	isErrRet := func(b *ssa.BasicBlock) bool {
+		for hops := 0; hops < 3; hops++ {
+			last := b.Instrs[len(b.Instrs)-1]
+			if ret, ok := last.(*ssa.Return); ok {
+				return isKnownError(ret.Results[res.Len()-1])
+			}
+			if _, ok := last.(*ssa.Jump); ok && len(b.Instrs) == 1 {
+				b = b.Succs[0]
+				continue
+			}
+			return false
+		}
+		return false
+	}
+	nchecks := 0
 	for _, b := range fn.Blocks {
 		iff, ok := b.Instrs[len(b.Instrs)-1].(*ssa.If)
 		if !ok || b.Succs[0] == b.Succs[1] {
@@ -1920,10 +1937,68 @@ func neededChecks(P *Program, r *Result, rule string, fa *FA, fn *ssa.Function, 
 					}
 				}
 				walk(pass)
+				nchecks++
 				r.add(rule, shortName(fn), "check", "a length check that can fail asks for no more than what is then read or counted", P.pos(instrPos(iff)), okAll, why)
 			}
 		}
 	}
+	return nchecks
+}
+
+// sliceNeeded: the same rule for decoders over a byte-slice parameter: the
+// bytes a check asks for are read by an index, a big-endian load, a slice
+// expression up to that position or a string conversion of such a slice.
+func sliceNeeded(P *Program, r *Result, rule string, fa *FA, fn *ssa.Function, par *ssa.Parameter) int {
+	return sliceNeededCnt(P, r, rule, fa, fn, par, -1)
+}
+
+func sliceNeededCnt(P *Program, r *Result, rule string, fa *FA, fn *ssa.Function, par *ssa.Parameter, cntIdx int) int {
+	d0 := fa.sliceDesc(par)
+	if d0 == nil {
+		return 0
+	}
+	res := fn.Signature.Results()
+	justifies := func(in ssa.Instruction, need *Lin) bool {
+		blk := in.Block()
+		ext := func(v ssa.Value, n *Lin) bool {
+			d := fa.sliceDesc(v)
+			if d == nil || d.Root != ssa.Value(par) {
+				return false
+			}
+			return fa.prove(ineqLE(need, d.Off.add(n)), blk, rootCtx)
+		}
+		switch x := in.(type) {
+		case *ssa.UnOp:
+			if ia, ok := x.X.(*ssa.IndexAddr); ok && x.Op == token.MUL {
+				return ext(ia.X, fa.expand(ia.Index).addConst(1))
+			}
+		case *ssa.Slice:
+			if x.High != nil {
+				return ext(x.X, fa.expand(x.High))
+			}
+		case *ssa.Call:
+			if cal := x.Common().StaticCallee(); cal != nil && fnPkgPath(cal) == "encoding/binary" && len(x.Common().Args) >= 2 {
+				w := int64(0)
+				switch {
+				case strings.HasSuffix(cal.Name(), "int16"):
+					w = 2
+				case strings.HasSuffix(cal.Name(), "int32"):
+					w = 4
+				case strings.HasSuffix(cal.Name(), "int64"):
+					w = 8
+				}
+				if w > 0 {
+					return ext(x.Common().Args[1], linConst(w))
+				}
+			}
+		case *ssa.Return:
+			if cntIdx >= 0 && isNilConst(x.Results[res.Len()-1]) {
+				return fa.prove(ineqLE(need, fa.expand(x.Results[cntIdx])), blk, rootCtx)
+			}
+		}
+		return false
+	}
+	return neededWalk(P, r, rule, fa, fn, linConst(0), d0.Len, justifies)
 }
 
 // isSizeFunc: a repository function of one type-tag parameter whose every return
